@@ -196,6 +196,49 @@ theorem endblock_rejected_only_on_mismatch (toks : List Tok) (h : parseToks toks
     | nil => simp [hf] at h
     | cons a as => simp [hf] at h
 
+/-- child: `{% extends 'p' %}{% block a %}{% block b %}{{ block.super }}{% endblock %}{% endblock %}` -/
+def invChild : Template := ⟨[.ext "p", .node (.block "a" false [.block "b" false [.super]])]⟩
+/-- parent: `{% block b %}{% block a %}{% endblock %}{% endblock %}` -/
+def invParent : Template := ⟨[.node (.block "b" false [.block "a" false []])]⟩
+
+/-- Inverted nesting with `block.super`: the child nests `b` in `a`, the parent nests `a` in `b`. Both templates
+are free of duplicates and form a well-formed chain, yet "replace every block by its most-derived definition,
+resolving nested blocks again" never bottoms out (`b → super → a → b → …`): for **every** depth budget the
+flattening is `contextDepth`, i.e. no finite flattened template exists. (Known finding
+`unbounded-recursion|RecursionError`: the implementation lets Python's RecursionError escape on such chains.) -/
+theorem flatten_unbounded_example (lim : Nat) (data : Scope) :
+    flatten lim [invChild, invParent] data = .error .contextDepth := by
+  have ha : defsOf [invChild, invParent] "a" = [⟨false, [.block "b" false [.super]]⟩, ⟨false, []⟩] := by rfl
+  have hb : defsOf [invChild, invParent] "b" = [⟨false, [.super]⟩, ⟨false, [.block "a" false []]⟩] := by rfl
+  have hr : rootOf [invChild, invParent] = [.block "b" false [.block "a" false []]] := by rfl
+  unfold flatten
+  rw [hr]
+  generalize defsOf [invChild, invParent] = res at ha hb
+  have key : ∀ n depth outer parents sc r body, lim + 1 - depth = n →
+      renderItem lim res depth outer parents sc (.block "b" r body) = .error .contextDepth := by
+    intro n
+    induction n using Nat.strongRecOn with
+    | ind n ih =>
+      intro depth outer parents sc r body hn
+      rw [renderItem]
+      simp only [hb]
+      by_cases h1 : depth > lim
+      · simp [h1]
+      · simp only [h1, Bool.false_eq_true, if_false, dite_false]
+        rw [renderItems_cons, renderItem, renderItems_cons, renderItem]
+        simp only [ha]
+        by_cases h2 : depth + 1 > lim
+        · simp [h2, seqOut]
+        · simp only [h2, Bool.false_eq_true, if_false, dite_false]
+          rw [renderItems_cons, ih (lim + 1 - (depth + 1 + 1)) (by omega) (depth + 1 + 1) _ _ _ _ _ rfl]
+          simp [seqOut]
+  rw [renderItems_cons, key _ 0 _ _ _ _ _ rfl]
+  rfl
+
+example : Linked [("c", invChild), ("p", invParent)] [] invChild [invChild, invParent] :=
+  .step [] invChild "p" invParent _ (by decide) (by decide) (by decide) (by simp)
+    (.root _ invParent (by decide) (by decide))
+
 /-! ### non-vacuity: the hypotheses of the theorems are met by concrete chains -/
 
 /-- `[{% block a %}ra{% endblock %}]` -/
